@@ -1,7 +1,8 @@
 (* Reads one case per line (same format as harness/src/bin/c19.rs), runs the extracted model of
    the language server's World ([trace_from], Lsp/World.v) and prints, per step, the sorted
    multiset of diagnostics publications in the harness' format; "CRASH:<kind>" when the model
-   says the server dies.   argv.(1) = "code" (default; the code as it is) | "patched";
+   says the server dies.   argv.(1) = "code" (default; the code as it is) | "patched" | "<purge><self>"
+   (two 0/1 flags selecting the proposed patches individually);
    with "state" as second argument also prints the final bookkeeping state (for hook H8). *)
 open C19_model
 
@@ -38,35 +39,48 @@ let show_diag = function
 let show_pub (p, ds) =
   Printf.sprintf "%d:%s" (int_of_nat p) (String.concat "+" (List.sort compare (List.map show_diag ds)))
 
+(* the bookkeeping state in the canonical format of the harness (hook H8): a file id is named
+   <path>#<k> = the k-th id allocated for that path *)
 let show_state n w =
-  let b = Buffer.create 256 in
   let nx = int_of_nat w.w_next in
-  let ids l = String.concat "." (List.map string_of_int (List.sort compare (List.map int_of_nat l))) in
+  let names = Hashtbl.create 16 and counts = Hashtbl.create 16 in
+  for f = 0 to nx - 1 do
+    match w.w_files (nat_of_int f) with
+    | Some (p, _) ->
+        let p = int_of_nat p in
+        let k = try Hashtbl.find counts p with Not_found -> 0 in
+        Hashtbl.replace counts p (k + 1);
+        Hashtbl.replace names f (Printf.sprintf "%d#%d" p k)
+    | None -> ()
+  done;
+  let nm f = try Hashtbl.find names (int_of_nat f) with Not_found -> Printf.sprintf "?%d" (int_of_nat f) in
+  let lst l = String.concat "." (List.sort compare (List.map nm l)) in
+  let out = ref [] in
+  let add s = out := s :: !out in
   for f = 0 to nx - 1 do
     let fn = nat_of_int f in
-    (match w.w_files fn with
-     | Some (p, c) ->
-         Buffer.add_string b (Printf.sprintf "f%d=%d/v%d" f (int_of_nat p) (int_of_nat c.c_vid));
-         (match w.w_an fn with
-          | Some a -> Buffer.add_string b (Printf.sprintf "/%s/v%d/%s"
-                        (match a.a_state with Parsed -> "parsed" | Typechecking -> "typechecking" | Typechecked -> "typechecked")
-                        (int_of_nat a.a_src.c_vid)
-                        (String.concat "+" (List.sort compare (List.map show_diag a.a_tdiags))))
-          | None -> Buffer.add_string b "/-");
-         Buffer.add_string b (Printf.sprintf "/i%s/r%s" (ids (w.w_imports fn)) (ids (w.w_rev fn)));
-         (match w.w_uris fn with Some p -> Buffer.add_string b (Printf.sprintf "/u%d" (int_of_nat p)) | None -> ());
-         Buffer.add_char b ' '
-     | None -> ())
+    match w.w_files fn with
+    | Some (_, c) ->
+        add (Printf.sprintf "F%s=v%d" (nm fn) (int_of_nat c.c_vid));
+        (match w.w_an fn with
+         | Some a -> add (Printf.sprintf "A%s=%s/%s/%s" (nm fn)
+                       (match a.a_state with Parsed -> "parsed" | Typechecking -> "typechecking" | Typechecked -> "typechecked")
+                       (match a.a_src.c_status with SPerr -> "perr" | _ -> "ok")
+                       (String.concat "+" (List.sort compare (List.map show_diag a.a_tdiags))))
+         | None -> ());
+        (match w.w_imports fn with [] -> () | l -> add (Printf.sprintf "I%s=%s" (nm fn) (lst l)));
+        (match w.w_rev fn with [] -> () | l -> add (Printf.sprintf "R%s=%s" (nm fn) (lst l)));
+        (match w.w_uris fn with Some p -> add (Printf.sprintf "U%s=%d" (nm fn) (int_of_nat p)) | None -> ())
+    | None -> ()
   done;
   for p = 0 to n - 1 do
     let pn = nat_of_int p in
     (match w.w_ids pn with
-     | Some (f, k) -> Buffer.add_string b (Printf.sprintf "p%d=%d%s " p (int_of_nat f)
-                        (match k with KMem -> "m" | KClosed -> "c" | KFs -> "f"))
+     | Some (f, k) -> add (Printf.sprintf "E%d=%s%s" p (nm f) (match k with KMem -> "m" | KClosed -> "c" | KFs -> "f"))
      | None -> ());
-    (match w.w_failed pn with [] -> () | l -> Buffer.add_string b (Printf.sprintf "x%d=%s " p (ids l)))
+    (match w.w_failed pn with [] -> () | l -> add (Printf.sprintf "X%d=%s" p (lst l)))
   done;
-  Buffer.contents b
+  String.concat " " (List.sort compare !out)
 
 (* some FileId that is no longer the id of its path (a closed buffer) has a cached analysis *)
 let has_dead_analysis w =
@@ -84,7 +98,13 @@ let has_dead_analysis w =
   !r
 
 let () =
-  let cfg = if Array.length Sys.argv > 1 && Sys.argv.(1) = "patched" then cfg_patched else cfg_code in
+  let cfg =
+    if Array.length Sys.argv <= 1 then cfg_code else
+    match Sys.argv.(1) with
+    | "patched" | "11" -> cfg_patched
+    | "10" -> { purge_closed = true; self_guard = false }
+    | "01" -> { purge_closed = false; self_guard = true }
+    | _ -> cfg_code in
   let want_state = Array.length Sys.argv > 2 && Sys.argv.(2) = "state" in
   let fuel = nat_of_int 300 in
   try
